@@ -149,3 +149,68 @@ CLAIMS['C12'] = dict(
          "check the assembled result.",
     note="Assumed: the numpy meshgrid/reshape/mask composite enumerates every multiplier triple except zero once; A2, A4; extend's contract.",
     technique='contract-based deductive verification (symbolic execution with callee contracts, real arithmetic, z3) + bounded replication checks')
+CLAIMS['C06'] = dict(
+    category='other',
+    text="The carrying obligation is proved for all table sizes on the real code: Atoms.extend_types (with the five num_*_types properties inlined) "
+         "appends the pattern's type tables after the structure's, leaves the pattern unmodified and returns offsets equal to the old table lengths "
+         "whenever a table exists (atom types always), so `pattern id + offset` resolves to the pattern's coefficient text and old ids keep theirs -- "
+         "also when a kind has a table but currently no terms; the pair table stays aligned when the structure has one. Term removal/re-indexing on "
+         "the final delete is C10's proof. Re-targeting and supersession inside extend and the composition over matches and over repeated "
+         "replacements are only checked with a stated bound against a reference model that identifies atoms by position (31 workflows quick, incl. "
+         "two-step replacements, long coefficient texts, terms on the same atoms with a different centre).",
+    note="Level 'other': the term clauses are bounded. Known finding F11: a structure with atom types but no pair table (CIF workflow) gets misaligned "
+         "pair coefficients; printed as KNOWN-FINDING.",
+    technique='contract-based deductive verification of the type-offset obligations (z3) + bounded reference-model comparison')
+CLAIMS['C09'] = dict(
+    category='other',
+    text="Invariant preservation is proved per operation on the real code: assert_arrays_are_consistent_sizes returns normally only if the size "
+         "invariant holds (all branches explored); __delitem__/pop re-establish it, keep surviving terms pointing at existing atoms and leave the "
+         "tables untouched (C10); extend_types only appends to tables and returns the old lengths as offsets, also for kinds with a table but no "
+         "terms (C11); __getitem__ passes the same index list to every per-atom array and ALL atom type tables (elements, masses, labels, pair "
+         "coefficients -- the last one found missing and fixed); replicate is C12. Closure under histories follows by induction. extend's array "
+         "surgery, the constructor's defaulting and LAMMPS writability are only checked with a stated bound: ~1 800 operation histories of depth 3 "
+         "compared step by step with an abstract model, each ending in a write / re-read of a LAMMPS file with matching declared counts.",
+    note="Level 'other': extend and __init__ are not under contract. Assumes deepcopy and the numpy contracts of C10.",
+    technique='contract-based deductive verification of invariant preservation per operation (z3) + bounded operation histories against an abstract model')
+CLAIMS['C11'] = dict(
+    category='other',
+    text="Proved for all table sizes: Atoms.extend_types appends every type table of the other structure after this one's, leaves the other "
+         "unmodified and returns offsets equal to the old table lengths whenever a table exists (1 498 obligations over the 2^? paths of the five "
+         "num_*_types properties). The body of extend (append of atoms in order, identity map, index conversion of the other's terms, supersession "
+         "forward/backward, merge of extra columns by label) is only checked with a stated bound on the real code: 669 extensions quick over small "
+         "pairs x partial injective identity maps x {default merging, same fragment twice, explicit shared offsets}, incl. impropers, reversed label "
+         "order and long coefficient texts, against the abstract extension spec.",
+    note="Level 'other': extend's array surgery is bounded, not proved.",
+    technique='contract-based deductive verification of the type-table merge (z3) + bounded enumeration of identity maps')
+CLAIMS['C13'] = dict(
+    category='other',
+    text="Record-level proof on the real AST of Atoms.save_lmpdat (file object recording every write, structure of arbitrary size, both atom "
+         "styles, scenarios with everything present / everything absent): count lines state the lengths, type-count lines state the table sizes and "
+         "are written iff positive, box lines state 0..cell[i][i], the tilt line cell[1][0], cell[2][0], cell[2][1] and is written exactly for "
+         "non-orthorhombic cells, sections appear in LAMMPS order, and every record of Masses / * Coeffs / Atoms / Bonds / Angles / Dihedrals / "
+         "Impropers carries the 1-based id of its position, the 1-based type and atom ids, charge, molecule id and coordinates of that item in the "
+         "order of the style. Parsing, the round trip and the byte-identical rewrite are only checked with a stated bound: the text is parsed by an "
+         "independent reader, re-read with mofun and re-written to a fixed point (105 generated files quick, incl. partly tilted and 1e-5 tilts).",
+    note="Level 'other': the reader and the whole-file round trip are bounded. Format strings and str.split are not interpreted.",
+    technique='contract-based deductive verification of the writer records (symbolic execution with a recording file object, z3) + bounded round trip with an independent reader')
+CLAIMS['C15'] = dict(
+    category='other',
+    text="Reader glue of load_p1_cif proved against an abstract block: a file is rejected iff it carries a space-group name other than P1 / 'P 1' "
+         "(or no coordinates), Cartesian tags take precedence over fractional ones, and fractional coordinates are reduced modulo 1 before the "
+         "multiplication with the cell (real arithmetic, arbitrary atom and cell) while Cartesian ones are left alone. Writer loops, label "
+         "generation, PyCifRW and the round trip are only checked with a stated bound: write -> read -> compare -> rewrite on 63 generated "
+         "structures (3 cells, coordinates inside / outside / on the boundary, explicit types sharing an element, all term kinds, extra columns), "
+         "comparison with ase.io.read, uncertainties in parentheses, 26 space-group names.",
+    note="Level 'other'. Known findings: impropers + extra torsion columns cannot be written (F17); '-0.0000' text after a re-read (cosmetic). The "
+         "writer raised on every call before the fix 20ec69a.",
+    technique='contract-based deductive verification of the reader decisions (z3) + bounded CIF round trips with an independent reader')
+CLAIMS['C20'] = dict(
+    category='proof',
+    text="mofun_cli's body is executed symbolically in six option scenarios with every callee uninterpreted and the structure's state a version "
+         "term: the term handed to save is the documented nesting load -> cell / positions / charges overrides -> replicate -> minimum-image "
+         "replication -> pair parameters -> replace, saved exactly once to the output path; the replacement receives the loaded find / replace files "
+         "and atol, replacement fraction and the three hints at the keywords they name (also for value 0); find-only searches the structure that is "
+         "saved unmodified with the given atol; every click option destination is a parameter. --framework-element is refuted (AttributeError): "
+         "known finding. click's parsing, file formats and equality with the API under the same seed are checked on 67 in-process invocations.",
+    note="Callees are uninterpreted (their behaviour is C04-C16); click's delivery of option values is assumed and exercised by the bounded stage.",
+    technique='contract-based deductive verification (call-trace contract by symbolic execution with uninterpreted callees, z3) + bounded CliRunner vs API comparison')
